@@ -31,7 +31,7 @@ def gen_program(rng, length):
             if skew and rng.random() < 0.2:
                 # timestamps are assigned by whichever node is leader: not monotonic across leader changes
                 ets = ts - rng.choice([1, 30, 400, 700, 2500]) * S
-            k = kinds.pop(0) if kinds else rng.choice(["p", "p", "p", "n", "j", "c", "d", "x1800", "x60", "x0", "x600"])
+            k = kinds.pop(0) if kinds else rng.choice(["p", "p", "p", "g", "g", "n", "j", "c", "d", "x1800", "x60", "x0", "x600"])
             if k == "c" and not kinds:
                 kinds = ["n", "u", "j"]
             ops.append("commit %d %d %s" % (idx, ets, k))
